@@ -7,6 +7,7 @@ case $V in
  rel) F="-O2 -DNDEBUG -DMI_BUILD_RELEASE";;
  dbg) F="-O1 -DMI_DEBUG=3";;
  sec) F="-O2 -DNDEBUG -DMI_SECURE=4";;
+ asan) F="-O1 -DNDEBUG -DMI_BUILD_RELEASE -fsanitize=address -fno-omit-frame-pointer"; L="-fsanitize=address";;
  *) echo "unknown variant $V" >&2; exit 2;;
 esac
 W="-Wall -Wno-unused-function -Wno-unused-variable -Wno-unknown-pragmas -Wno-format-truncation"
@@ -14,5 +15,5 @@ set -e
 gcc -std=gnu11 -g -O2 $W -I/verif/engine -c /verif/engine/vf_os.c -o $OUT.os.o
 gcc -std=gnu11 -g -O2 $W -I/verif/engine -c /verif/engine/vf_sched.c -o $OUT.sched.o
 gcc -std=gnu11 -g $F $W -ftls-model=initial-exec -fno-builtin-malloc -I$REPO/include -I$REPO -I$REPO/src -I/verif/engine -include /verif/engine/verif_pre.h -DVF_VARIANT=\"$V\" -DVF_HARNESS=\"$(basename $SRC .c)\" "$@" -c $SRC -o $OUT.o
-gcc -g $OUT.o $OUT.os.o $OUT.sched.o -o $OUT -lpthread -rdynamic
+gcc -g $L $OUT.o $OUT.os.o $OUT.sched.o -o $OUT -lpthread -rdynamic
 rm -f $OUT.o $OUT.os.o $OUT.sched.o
